@@ -1157,6 +1157,11 @@ class Ev:
 
     def compare(self, op, a, b, node):
         from . import builtins as B
+        if isinstance(op, (ast.Eq, ast.NotEq)) and self.registry and (
+                (isinstance(a, VRef) and isinstance(self.st.obj(a), Obj)) or (isinstance(b, VRef) and isinstance(self.st.obj(b), Obj))):
+            cm = self.registry.compare_model(a, b, op)     # a modelled __eq__ of a repository class
+            if cm is not None:
+                return cm(self, a, b)
         if isinstance(op, ast.Eq):
             return self.eq(a, b)
         if isinstance(op, ast.NotEq):
